@@ -5,7 +5,10 @@ use crate::streaming::{
     },
     segments::indexes::IndexRange,
 };
+#[cfg(not(kani))]
 use bytes::BytesMut;
+#[cfg(kani)]
+use iggy::verif_model::bytesmut::BytesMut;
 use error_set::ErrContext;
 use iggy::{error::IggyError, utils::byte_size::IggyByteSize};
 #[cfg(not(kani))]
